@@ -64,8 +64,27 @@ def zset_cmd(rng, k, inplace_ok):
     if c in ("ZUNIONSTORE", "ZINTERSTORE"): return [c, rng.choice(KEYS), "2", k, rng.choice(KEYS)]
     return [c, k]
 
-def rand_cmd(rng, inplace_ok=False, malformed=False):
+def keyspace_cmd(rng, k, malformed=False):
+    """RANDOMKEY / TOUCH / OBJECTFREQ / OBJECTIDLETIME / ZRANDMEMBER: the commands that go through the keyspace functions
+    randomKey / updateKeysInCache / getObjectFreq / getObjectIdleTime, and the randomised sorted-set reader.  The replies of
+    RANDOMKEY and ZRANDMEMBER are random: common.compare_lines compares their shape only (RANDOM_WORDS)."""
+    c = rng.choice(["RANDOMKEY", "TOUCH", "OBJECTFREQ", "OBJECTIDLETIME", "ZRANDMEMBER", "ZRANDMEMBER"])
+    if c == "RANDOMKEY": argv = [c]
+    elif c == "TOUCH": argv = [c] + [rng.choice(KEYS + ["zz"]) for _ in range(rng.randint(1, 3))]
+    elif c == "ZRANDMEMBER":
+        argv = [c, k]
+        if rng.random() < 0.7:
+            argv.append(rng.choice(["0", "1", "2", "-1", "-3", "7", "-7"] + (["x", ""] if malformed else [])))
+            if rng.random() < 0.5: argv.append(rng.choice(["WITHSCORES", "withscores"] + (["nope"] if malformed else [])))
+    else: argv = [c, k]
+    if malformed and rng.random() < 0.3:
+        argv = argv[:-1] if rng.random() < 0.5 and len(argv) > 1 else argv + ["junk"]
+    return argv
+
+def rand_cmd(rng, inplace_ok=False, malformed=False, keyspace=False):
     k = rng.choice(KEYS)
+    if keyspace and rng.random() < 0.1:
+        return keyspace_cmd(rng, k, malformed)
     r = rng.random()
     if r < 0.35: return gen_kv.rand_cmd(rng, malformed, True)
     if r < 0.55: return _list_cmd(rng, k)
@@ -73,7 +92,7 @@ def rand_cmd(rng, inplace_ok=False, malformed=False):
     if r < 0.86: return set_cmd(rng, k, inplace_ok)
     return zset_cmd(rng, k, inplace_ok)
 
-def script(rng, sid, length, inplace_ok=False, malformed=False, dbs=(0,), conns=(0,), advances=True, flush=True, digest_p=0.3):
+def script(rng, sid, length, inplace_ok=False, malformed=False, dbs=(0,), conns=(0,), advances=True, flush=True, digest_p=0.3, keyspace=True):
     s = Script(sid, {"now": NOW})
     gen_kv.rand_preset(rng, s, dbs)
     s.digest()
@@ -94,7 +113,7 @@ def script(rng, sid, length, inplace_ok=False, malformed=False, dbs=(0,), conns=
         elif len(dbs) > 1 and r < 0.24:
             s.cmd(c, "SWAPDB", str(rng.choice(dbs)), str(rng.choice(dbs)))
         else:
-            s.cmd(c, *rand_cmd(rng, inplace_ok, malformed))
+            s.cmd(c, *rand_cmd(rng, inplace_ok, malformed, keyspace))
         if rng.random() < digest_p:
             s.digest()
     s.digest()
